@@ -56,6 +56,8 @@ pub enum Ty {
     Named(&'static str),
     /// `minicbor::data::Tagged<N, T>`: tag N, then the value; never nil itself
     Tagged(u64, Box<Ty>),
+    /// `dsupport::codecs::tri::Tri` (view U(0) = Keep = nil, U(1) = Clear = null, U(n+2) = Set(n))
+    Tri,
     /// u32 with the custom nil-aware codec (`dsupport::codecs::nilu32`): 0 is nil and is written as null
     NilU32,
 }
